@@ -18,24 +18,33 @@ PROPS = {
                    "Props.GenTie.CoinbaseRule": ["get_block_subsidy", "validate_sashimi_range", "coinbase_in_state_ok"]},
         assumptions=["Python int arithmetic is exact (unbounded)"]),
     "C01": dict(
-        lean_core=["Props.C01"], lean_code=["Props.GenTie.SpendRule"], gen_funcs=["spend_in_state_ok"], harness="c01",
+        lean_core=["Props.C01"], lean_code=["Props.GenTie.SpendRule", "Props.GenTie.SpendByItselfRule", "Props.GenTie.BlockByItselfRule"],
+        gen_funcs=["spend_in_state_ok", "spend_by_itself_ok", "block_by_itself_ok", "validate_sashimi_range", "get_block_subsidy"], harness="c01",
+        code_deps={"Props.GenTie.SpendRule": ["spend_in_state_ok"],
+                   "Props.GenTie.SpendByItselfRule": ["spend_by_itself_ok", "validate_sashimi_range", "get_block_subsidy"],
+                   "Props.GenTie.BlockByItselfRule": ["block_by_itself_ok"]},
         assumptions=["signature validity is an oracle in the driver (each listed triple is checked with python-ecdsa by the harness)",
                      "scrypt replaced by sha256(password+salt) in harness and driver",
                      "full validation = add_block above the checkpoint horizon (horizon lowered to -1 or 2 in the harness)"]),
     "C02": dict(
-        lean_core=["Props.GenTie.Params", "Props.C16", "Props.C02"], lean_code=["Props.GenTie.Subsidy", "Props.GenTie.CoinbaseRule"],
-        gen_funcs=["get_block_subsidy", "validate_sashimi_range", "coinbase_in_state_ok"], harness="c02",
+        lean_core=["Props.GenTie.Params", "Props.C16", "Props.C02"],
+        lean_code=["Props.GenTie.Subsidy", "Props.GenTie.CoinbaseRule", "Props.GenTie.SpendByItselfRule", "Props.GenTie.SpendRule"],
+        gen_funcs=["get_block_subsidy", "validate_sashimi_range", "coinbase_in_state_ok", "spend_by_itself_ok", "spend_in_state_ok"], harness="c02",
         code_deps={"Props.GenTie.Subsidy": ["get_block_subsidy", "validate_sashimi_range"],
+                   "Props.GenTie.SpendByItselfRule": ["spend_by_itself_ok", "validate_sashimi_range", "get_block_subsidy"],
+                   "Props.GenTie.SpendRule": ["spend_in_state_ok"],
                    "Props.GenTie.CoinbaseRule": ["get_block_subsidy", "validate_sashimi_range", "coinbase_in_state_ok"]},
         assumptions=["as C01"]),
     "C05": dict(
         lean_core=["Props.GenTie.Params", "Props.C05"],
-        lean_code=["Props.GenTie.Target", "Props.C05Code", "Props.GenTie.SummaryRule", "Props.GenTie.HeaderRule", "Props.GenTie.BlockRule"],
-        gen_funcs=["calculate_new_target", "select_block_height", "summary_in_state_ok", "header_by_itself_ok", "block_in_state_ok"], harness="c05",
+        lean_code=["Props.GenTie.Target", "Props.C05Code", "Props.GenTie.SummaryRule", "Props.GenTie.HeaderRule", "Props.GenTie.BlockRule",
+                   "Props.GenTie.BlockByItselfRule"],
+        gen_funcs=["calculate_new_target", "select_block_height", "summary_in_state_ok", "header_by_itself_ok", "block_in_state_ok",
+                   "block_by_itself_ok"], harness="c05",
         code_deps={"Props.GenTie.Target": ["calculate_new_target", "select_block_height"],
                    "Props.C05Code": ["calculate_new_target", "select_block_height"],
                    "Props.GenTie.SummaryRule": ["summary_in_state_ok"], "Props.GenTie.HeaderRule": ["header_by_itself_ok"],
-                   "Props.GenTie.BlockRule": ["block_in_state_ok"]},
+                   "Props.GenTie.BlockRule": ["block_in_state_ok"], "Props.GenTie.BlockByItselfRule": ["block_by_itself_ok"]},
         assumptions=["as C01", "elapsed time passed to calculate_new_target is non-negative (timestamps increase along validated chains)"]),
     "C03": dict(
         lean_core=["Props.C03", "Props.C03Balance"], lean_code=[], gen_funcs=[], harness="c03",
